@@ -102,7 +102,7 @@ CHECKS["C20"] = {
     "category": "exploration",
     "text": "Configuration packages are emitted from a structural description (variant 0 mirrors the demo) under seeded transformations that keep the documented conventions: renamed keys / level keys / basetypes / type codes / leaf key, inserted and removed hierarchy levels, other file-name separators and fixed folders, changed closed vocabularies and digit widths, swapped sid/path vocabularies of a mapping, more projects, a third basetype, a third path configuration (optionally as default). Every variant is put first on the python path of fresh worker processes, and the config-generic claimed profiles run unchanged in them: paths (C05: round trip, purity, injectivity, roots, template-formatted path), finders (C11: three parties + model + junk invariance + local=server), derived (C12), algebra (C10 relations, which is where an alias/leaf-key dependence shows). Scoped to these claimed oracles; the pure sub-properties C01-C04, C06-C08 the statement also names are not claimed and only exercised incidentally.",
     "ref": "DESIGN.md 5.12",
-    "note": TRUST + " Generated variants are well-formed by construction (confgen.py); a variant that failed to import would end the check with exit 2, not a violation.",
+    "note": TRUST + " Generated variants are well-formed by construction (confgen.py); a variant that failed to import would end the check with exit 2, not a violation. One open known finding (F1 in known_findings.json, DESIGN 12.5): a key NAMED 'frame' makes FindInPaths raise AttributeError (hard-coded key name); the check runs a dedicated variant for it, prints KNOWN-FINDING and still reports every other violation.",
 }
 
 NOT_APPLICABLE = {
